@@ -707,7 +707,7 @@ V('c16-data-updated-before-test', 'C16', 'C16.GUARD', LSF,
   "    ) -> None:\n        if (\n            self.data == data\n",
   "    ) -> None:\n        previous, self.data = self.data, data\n        if (\n            previous == data\n")
 V('c16-qu-exemption-dropped', 'C16', 'C16.GUARD', LSF,
-  "            and self.last_message is not None\n            and not self.last_message.has_qu_question()\n", "            and self.last_message is not None\n")
+  "            and not (self.last_message.is_query() and self.last_message.has_qu_question())\n", "")
 V('c16-interval-ignored', 'C16', 'C16.GUARD', LSF,
   "            and (now - _DUPLICATE_PACKET_SUPPRESSION_INTERVAL) < self.last_time\n", "")
 V('c16-interval-le', 'C16', 'C16.GUARD', LSF,
@@ -727,8 +727,8 @@ V('c16-shared-protocol', 'C16', 'C16.GUARD', '_engine.py',
   "        shared = AsyncListener(self.zc)\n        for s in reader_sockets:\n            transport, protocol = await loop.create_datagram_endpoint(\n                lambda: shared, sock=s  # type: ignore[arg-type, return-value]\n            )")
 # twins
 V('c16-twin-guard-reordered', 'C16', 'C16.GUARD', LSF,
-  "            self.data == data\n            # the same bytes from another source are another querier's\n            # datagram, not a link-layer duplicate of the last one\n            and self.last_addrs == addrs\n            and (now - _DUPLICATE_PACKET_SUPPRESSION_INTERVAL) < self.last_time\n            and self.last_message is not None\n            and not self.last_message.has_qu_question()",
-  "            self.last_message is not None\n            and data == self.data\n            and addrs == self.last_addrs\n            and now < self.last_time + _DUPLICATE_PACKET_SUPPRESSION_INTERVAL\n            and not self.last_message.has_qu_question()", expect='silent')
+  "            self.data == data\n            # the same bytes from another source are another querier's\n            # datagram, not a link-layer duplicate of the last one\n            and self.last_addrs == addrs\n            and (now - _DUPLICATE_PACKET_SUPPRESSION_INTERVAL) < self.last_time\n            and self.last_message is not None\n",
+  "            self.last_message is not None\n            and data == self.data\n            and addrs == self.last_addrs\n            and now < self.last_time + _DUPLICATE_PACKET_SUPPRESSION_INTERVAL\n", expect='silent')
 
 # ---------------------------------------------------------------- C08
 V('c08-text-without-override', 'C08', 'C08.GOODBYE', CORE,
@@ -1014,3 +1014,11 @@ V('c15-handler-falls-through-unbound', 'C15', 'C15.ESCAPE', CORE,
 V('c15-twin-handler-binds-default', 'C15', 'C15.ESCAPE', CORE,
   "            self.log_warning_once(\"Dropping %r as it contains a name part that is too long\", out)\n            return\n",
   "            self.log_warning_once(\"Dropping %r as it contains a name part that is too long\", out)\n            packets = []\n", expect='silent')
+
+# ---------------------------------------------------------------- defect F24 re-introduced
+V('c16-qu-exemption-for-responses-too', 'C16', 'C16.GUARD', LSF,
+  "            and not (self.last_message.is_query() and self.last_message.has_qu_question())\n",
+  "            and not self.last_message.has_qu_question()\n", names=['_process_datagram_at_time'])
+V('c16-twin-qu-exemption-demorgan', 'C16', 'C16.GUARD', LSF,
+  "            and not (self.last_message.is_query() and self.last_message.has_qu_question())\n",
+  "            and (not self.last_message.has_qu_question() or not self.last_message.is_query())\n", expect='silent')
